@@ -124,20 +124,53 @@ def _cat_table(spec):
         plus = lev_normaliser_offset()
         return lambda a, b: (levenshtein(a, b) / (max(len(a), len(b)) + plus)) if a != b else 0.0
     if k in ("ordinal", "numerical"):
-        labels = list(spec["labels"])
-        if k == "numerical":
-            pos = {l: float(np.float32(float(l))) for l in labels}
-        elif spec["p"] is None:
-            pos = {l: float(i) for i, l in enumerate(labels)}
-        else:
-            pos = {l: float(p) for l, p in zip(labels, spec["p"])}
-        mx = max([1.0] + [abs(pos[a] - pos[b]) for a in labels for b in labels])
-        return lambda a, b: abs(pos[a] - pos[b]) / mx
+        pos = ordinal_positions(spec)
+        scale = ordinal_scale(spec)
+        return lambda a, b: abs(pos[a] - pos[b]) * scale
     raise HarnessError(f"not categorical: {k}")
 
 
 _REF_CACHE = {}
 _LEV_OFFSET = None
+_ORD_SCALE = {}
+
+
+def ordinal_positions(spec):
+    labels = list(spec["labels"])
+    if spec["kind"] == "numerical":
+        return {l: float(np.float32(float(l))) for l in labels}
+    if spec.get("p") is None:
+        return {l: float(i) for i, l in enumerate(labels)}
+    return {l: float(p) for l, p in zip(labels, spec["p"])}
+
+
+def ordinal_scale(spec):
+    """The property only demands that ordinal/numerical values are PROPORTIONAL to the distance of the
+    positions (the docstrings give two different normalisations).  The one positive constant per
+    dissimilarity is therefore calibrated from the library: value of the two extreme labels / their distance,
+    measured on a stand-alone object with delta_empty = 1 (DESIGN.md C04)."""
+    key = canon({k: spec[k] for k in ("kind", "labels", "p") if k in spec})
+    if key in _ORD_SCALE:
+        return _ORD_SCALE[key]
+    pos = ordinal_positions(spec)
+    lo = min(pos, key=lambda l: (pos[l], l))
+    hi = max(pos, key=lambda l: (pos[l], l))
+    dist = abs(pos[hi] - pos[lo])
+    scale = 1.0
+    if dist > 0:
+        from .env import import_library
+        pa = import_library()
+        from pyannote.core import Segment
+        base = dict(spec)
+        base["delta"] = 1.0
+        obj = build_dissim(base, cache=False)
+        v = float(obj.d(pa.Unit(Segment(0, 1), lo), pa.Unit(Segment(0, 1), hi)))
+        if v > 0 and math.isfinite(v):
+            scale = v / dist
+    if len(_ORD_SCALE) > 2000:
+        _ORD_SCALE.clear()
+    _ORD_SCALE[key] = scale
+    return scale
 
 
 def lev_normaliser_offset():
